@@ -133,7 +133,7 @@ def write_query(path, sc, encoding='dense', query=None, cell_ids=None, genes=Non
 def config_for(d, query_path, stats_path, marker_path, *, flatten=False, drop_level=None, chunk_size=4,
                n_processors=2, bootstrap_factor=0.5, bootstrap_iteration=5, rng_seed=11, n_runners_up=2,
                normalization='log2CPM', min_markers=2, cloud_safe=False, tmp_dir='tmp', csv=True, hdf5=True,
-               obsm_key=None, max_gb=1):
+               obsm_key=None, max_gb=1, bootstrap_factor_lookup=None):
     d = pathlib.Path(d)
     (d / 'tmp').mkdir(exist_ok=True)
     (d / 'out').mkdir(exist_ok=True)
@@ -152,7 +152,7 @@ def config_for(d, query_path, stats_path, marker_path, *, flatten=False, drop_le
         'precomputed_stats': {'path': str(stats_path)},
         'query_markers': {'serialized_lookup': str(marker_path)},
         'type_assignment': {'n_processors': n_processors, 'chunk_size': chunk_size,
-                            'bootstrap_factor': bootstrap_factor, 'bootstrap_factor_lookup': None,
+                            'bootstrap_factor': bootstrap_factor, 'bootstrap_factor_lookup': bootstrap_factor_lookup,
                             'bootstrap_iteration': bootstrap_iteration, 'rng_seed': rng_seed,
                             'n_runners_up': n_runners_up, 'normalization': normalization,
                             'min_markers': min_markers},
